@@ -642,7 +642,14 @@ clientInput(void *data)
     rfbCloseSocket(cl->sock);
     cl->sock = RFB_INVALID_SOCKET;
 
+#ifdef LIBVNCSERVER_HAVE_LIBPTHREAD
+    /* Nobody joins a client thread that ends by itself, unless rfbShutdownServer() has claimed
+       it: give the thread's resources back here. (cl is gone now.) */
+    if (!rfbClientTeardown(cl))
+	pthread_detach(pthread_self());
+#else
     rfbClientConnectionGone(cl);
+#endif
 
     return THREAD_ROUTINE_RETURN_VALUE;
 }
@@ -1342,6 +1349,9 @@ void rfbShutdownServer(rfbScreenInfoPtr screen,rfbBool disconnectClients) {
          threaded mode the client's own thread frees the record as soon as that reference is gone.
          Read what is needed for the join and notify the client first, advance afterwards. */
       pthread_t clientThread = currentCl->client_thread;
+      /* claim the join, or the thread would detach itself when it ends */
+      if (screen->backgroundLoop)
+	  currentCl->clientThreadJoinedByShutdown = TRUE;
 #endif
       if (currentCl->sock != RFB_INVALID_SOCKET) {
         /* we don't care about maxfd here, because the server goes away */
